@@ -1329,13 +1329,6 @@ fn rebuild_value(
             builder.token(k.into(), &t);
         }
     } else {
-        // Insert a leading newline if the value is multi-line and immediate_empty_line is set
-        if immediate_empty_line && has_newline {
-            builder.token(NEWLINE.into(), "\n");
-            last_was_newline = true;
-        } else {
-            builder.token(WHITESPACE.into(), " ");
-        }
         // Strip leading whitespace and newlines
         while let Some((k, _t)) = tokens.first() {
             if *k == NEWLINE || *k == WHITESPACE {
@@ -1343,6 +1336,15 @@ fn rebuild_value(
             } else {
                 break;
             }
+        }
+        // Insert a leading newline if the value is multi-line and immediate_empty_line is set, or if
+        // the value begins with a comment (on the field's own line it would be read as value text)
+        let starts_with_comment = matches!(tokens.first(), Some((COMMENT, _)));
+        if (immediate_empty_line && has_newline) || starts_with_comment {
+            builder.token(NEWLINE.into(), "\n");
+            last_was_newline = true;
+        } else {
+            builder.token(WHITESPACE.into(), " ");
         }
         for (k, t) in tokens {
             if last_was_newline {
